@@ -163,6 +163,16 @@ func RunChild(o ChildOpts) error {
 			continue
 		}
 		n := st.N(o.Tier)
+		if sc := os.Getenv("VERIF_SCALE"); sc != "" && !st.Exhaustive {
+			// used by tools/mutscreen.py only (screening many mutants cheaply); registered checks never set it
+			var f float64
+			if _, err := fmt.Sscanf(sc, "%g", &f); err == nil && f > 0 {
+				n = int(float64(n) * f)
+				if n < 1 {
+					n = 1
+				}
+			}
+		}
 		lo0, hi0 := 0, n
 		if o.OnlyStr >= 0 && o.OnlyIdx >= 0 {
 			lo0, hi0 = o.OnlyIdx, o.OnlyIdx+1
